@@ -27,7 +27,10 @@ def run(tier):
                       "Cmap::from_mappings + dump_table, the emitted arrays are read back raw and judged by "
                       "CmapTrace (writer vs standard at all segment edges +-1), and the repository's readers "
                       "(table-level, skrifa Charmap, the iterators, all 65536 BMP code points) are judged against the "
-                      "input mapping; random runs and random format 14 tables are validated the same way.")
+                      "input mapping; random runs and random format 14 tables are validated the same way. Every format 4 / 12 "
+                      "subtable of the corpus fonts is read raw and CmapTrace!TCmapRead compares the readers' answers at "
+                      "all segment edges +-1 with the specification's lookup on the same arrays (enumeration: ascending and "
+                      "equal to the lookup).")
     ck.assumptions = ["glyph ids 1..0xFFFE, no surrogates, U+FFFF excluded (as the property states)",
                       "glyph 0 answers/pairs at the table level count as 'no glyph'"]
     wd = vlib.workdir(PID)
@@ -47,6 +50,11 @@ def run(tier):
         res = vlib.run_harness("fv-write", ["c08", "random", "--seed", vlib.seed() + i, "--n", 60 if tier == "quick" else 250, "--out", t2])
         ck.add_harness("record:random:%d" % i, res, traces=False)
         validate(ck, wd, "random:%d" % i, t2)
+    # V on the corpus: every format 4 / 12 subtable of the repository's fonts, readers vs Cmap.tla's lookup on the same arrays
+    t3 = os.path.join(wd, "corpus.ndjson")
+    res = vlib.run_harness("fv-write", ["c08", "corpus", "--out", t3])
+    ck.add_harness("record:corpus", res, traces=False)
+    validate(ck, wd, "corpus", t3)
     return ck.finish()
 
 
